@@ -13,7 +13,7 @@ from fractions import Fraction
 from .. import arr as A
 from ..report import Finding
 from .common import *
-from .convspec import conv_definition, option_box
+from .convspec import conv_definition, option_box, sampled_options
 
 
 def worker(job):
@@ -163,6 +163,12 @@ def run(ctx):
         for flags in ((True,) * D, (True, False, True)[:D], False):
             for padding in ("TORUS", "SAME", None, [[0, 1]] * D):
                 jobs.append((ctx.repo, "convolve_with", D, N, (3,) * D, 1, 1 if D == 2 else 0, 1, 1, 1, flags, 1, padding, None, 1))
+    # pseudo-random members of the full option space (deterministic): combinations nobody wrote down
+    for D in (2, 3):
+        for o in sampled_options(D, (600 if D == 2 else 250) if th else (40 if D == 2 else 12), "C04"):
+            jobs.append((ctx.repo, "convolve", D, o["N"], o["M"], o["ki"], o["kf"], o["B"], o["C"], o["O"], o["flags"], o["stride"], o["padding"], o["ld"], o["rd"]))
+            if o["ki"] <= o["kf"]:
+                jobs.append((ctx.repo, "convolve_contract", D, o["N"], o["M"], o["ki"], o["kf"], o["B"], o["C"], o["O"], o["flags"], o["stride"], o["padding"], o["ld"], o["rd"]))
     by = {}
     for job, r in ctx.pairs(worker, jobs):
         cfg = r["cfg"]
